@@ -77,7 +77,7 @@ func (d *Decls) sliceOf(elem string) string {
 	return n
 }
 
-func sliceLen(s Term) string  { return "(len_" + s.Sort + " " + s.S + ")" }
+func sliceLen(s Term) string   { return "(len_" + s.Sort + " " + s.S + ")" }
 func sliceElems(s Term) string { return "(el_" + s.Sort + " " + s.S + ")" }
 func mkSlice(sortName, l, el string) string {
 	return "(mk_" + sortName + " " + l + " " + el + ")"
